@@ -6,7 +6,7 @@ import z3
 from hv.core import REPO
 from hv.pyvc import engine as E
 from hv.pyvc.engine import (NONE, ExcVal, Executor, Model, Obj, Path, PyConst, State, Tup, Unsupported, discharge,
-                            load_function)
+                            is_z3, load_function)
 
 IntSet = z3.SetSort(z3.IntSort())
 
@@ -197,8 +197,33 @@ def c28(chk, prefix="hy_repr", concrete=None):
 # ===============================================================================================================
 # C38  gensym: monitor discipline on _gensym_counter
 # ===============================================================================================================
+class _StrMeth:
+    """A bound str method `recv.name` of a symbolic string."""
+    def __init__(self, recv, name):
+        self.recv, self.name = recv, name
+
+    def __repr__(self):
+        return f"<str.{self.name}>"
+
+
+MANGLE = z3.Function("hy_mangle", z3.StringSort(), z3.StringSort())
+GENSYM_LEMMAS = {
+    "A1": "hy.mangle is idempotent: mangle(mangle(x)) == mangle(x)  (property C32)",
+    "A2": "stripping: if t is a fixed point of hy.mangle and starts with _hyx_, then '_' + t[5:] is a fixed point too (the escaped body "
+          "consists of identifier-continue characters and is NFKC-normal, so with an underscore in front it is an identifier)",
+    "A3": "prefix: if x starts with _hy_gensym_ then mangle(x) starts with _hy_gensym_ or with _hyx_hy_gensym_ (ASCII letters and "
+          "underscores are kept; one leading underscore is kept in front of an hyx_ escape)",
+    "A4": "suffix: if x ends with '_' + str(d) for an integer d >= 0 then so does mangle(x) (ASCII digits and inner underscores are kept)",
+}
+
+
 class GensymModel(Model):
-    """Ghost: `held` (lock held by this thread), event log of counter accesses with the value of `held`."""
+    """Ghost: `held` (lock held by this thread), event log of counter accesses with the value of `held`.
+    Strings: hy.mangle is an uninterpreted function constrained by ground instances of the lemmas GENSYM_LEMMAS (assumed contract of
+    the callee, validated against the live hy.mangle by a bounded run-time obligation); str methods are z3 string operations."""
+
+    def __init__(self):
+        self.ints = []          # integers formatted into the name (for the instances of A4)
 
     def call(self, ex, st, f, args, kwargs, node):
         src = ast.unparse(node.func)
@@ -207,15 +232,64 @@ class GensymModel(Model):
             # before we got the lock (havoc), but not while we hold it.
             st.ghost["held"] = True
             st.globals["_gensym_counter"] = ex.fresh(z3.IntSort(), "counter_at_acquire")
+            st.pc.append(st.globals["_gensym_counter"] >= 0)        # module invariant: starts at 0, only ever incremented under the lock
             st.ghost["at_acquire"] = st.globals["_gensym_counter"]
             st.log.append(("acquire",))
             return [Path(st, "normal", NONE)]
         if src == "_gensym_lock.release":
             self.release(ex, st)
             return [Path(st, "normal", NONE)]
-        if src in ("hy.mangle", "'_hy_gensym_{}_{}'.format", "hy.models.Symbol", "g.startswith", "len"):
-            return [Path(st, "normal", Obj("opaque:" + src))]
+        if src == "hy.mangle" and len(args) == 1 and not kwargs:
+            x = ex.to_str(args[0])
+            t = MANGLE(x)
+            st.pc.append(MANGLE(t) == t)                                                              # A1 at x
+            u = z3.Concat(z3.StringVal("_"), z3.SubString(t, 5, z3.Length(t) - 5))
+            st.pc.append(z3.Implies(z3.PrefixOf(z3.StringVal("_hyx_"), t), MANGLE(u) == u))           # A2 at t
+            st.pc.append(z3.Implies(z3.PrefixOf(z3.StringVal("_hy_gensym_"), x),
+                                    z3.Or(z3.PrefixOf(z3.StringVal("_hy_gensym_"), t),
+                                          z3.PrefixOf(z3.StringVal("_hyx_hy_gensym_"), t))))            # A3 at x
+            for d in self._ints_in(x):
+                suf = z3.Concat(z3.StringVal("_"), z3.IntToStr(d))
+                st.pc.append(z3.Implies(z3.And(d >= 0, z3.SuffixOf(suf, x)), z3.SuffixOf(suf, t)))    # A4 at x, d
+            return [Path(st, "normal", t)]
+        if src == "hy.models.Symbol" and len(args) == 1 and not kwargs:
+            o = Obj("Symbol")
+            st.fields[(o.oid, "text")] = ex.to_str(args[0])
+            return [Path(st, "normal", o)]
+        if isinstance(f, _StrMeth):
+            r, nm = f.recv, f.name
+            if nm == "format" and z3.is_string_value(r) and not kwargs:
+                fmt = r.as_string()
+                parts = fmt.split("{}")
+                if len(parts) != len(args) + 1 or "{" in "".join(parts) or "}" in "".join(parts):
+                    raise Unsupported("str.format with a format string other than plain {} fields")
+                acc = z3.StringVal(parts[0])
+                for a, lit in zip(args, parts[1:]):
+                    if is_z3(a) and z3.is_int(a):
+                        self.ints.append(a)
+                    acc = z3.Concat(acc, ex.to_str(a), z3.StringVal(lit))
+                return [Path(st, "normal", z3.simplify(acc))]
+            if nm in ("startswith", "endswith") and len(args) == 1 and is_z3(args[0]) and z3.is_string(args[0]):
+                return [Path(st, "normal", (z3.PrefixOf if nm == "startswith" else z3.SuffixOf)(args[0], r))]
+            if nm in ("isidentifier", "isascii", "isalnum", "isalpha", "isdigit", "isprintable") and not args:
+                # a predicate of the string about which nothing is assumed
+                return [Path(st, "normal", z3.Function("str_" + nm, z3.StringSort(), z3.BoolSort())(r))]
+            raise Unsupported(f"str.{nm} (no contract)")
         return NotImplemented
+
+    @staticmethod
+    def _ints_in(term):
+        """Integers converted to text inside a string term (whatever built it: str.format, an f-string, + of str(n))."""
+        out, todo, seen = [], [term], set()
+        while todo:
+            t = todo.pop()
+            if t.get_id() in seen:
+                continue
+            seen.add(t.get_id())
+            if z3.is_app(t) and t.decl().kind() == z3.Z3_OP_INT_TO_STR:
+                out.append(t.arg(0))
+            todo.extend(t.children())
+        return out
 
     def release(self, ex, st):
         st.log.append(("release", st.globals["_gensym_counter"]))
@@ -228,6 +302,7 @@ class GensymModel(Model):
         if isinstance(cm, Obj) and cm.kind == "name:_gensym_lock":
             st.ghost["held"] = True
             st.globals["_gensym_counter"] = ex.fresh(z3.IntSort(), "counter_at_acquire")
+            st.pc.append(st.globals["_gensym_counter"] >= 0)
             st.ghost["at_acquire"] = st.globals["_gensym_counter"]
             st.log.append(("acquire",))
 
@@ -238,28 +313,26 @@ class GensymModel(Model):
         return NotImplemented
 
     def getattr(self, ex, st, obj, name, node):
+        if is_z3(obj) and z3.is_string(obj):
+            return _StrMeth(obj, name)
         src = ast.unparse(node)
-        if src.startswith(("_gensym_lock.", "hy.", "g.")) or src.endswith(".format"):
+        if src.startswith(("_gensym_lock.", "hy.")):
             return Obj("attr:" + src)
         return NotImplemented
 
     def name(self, ex, st, n):
         if n == "_gensym_counter":
             st.log.append(("read" if True else "", st.ghost.get("held", False)))
-        if n in ("_gensym_lock", "hy", "len"):
+        if n in ("_gensym_lock", "hy"):
             return Obj("name:" + n)
+        if n == "len":
+            return PyConst(len)
+        if n == "str":
+            return PyConst(str)
         return NotImplemented
 
-    def truthy(self, ex, st, v):
-        if isinstance(v, Obj) and v.kind.startswith("opaque:g.startswith"):
-            return ex.fresh(z3.BoolSort(), "startswith")
-        return NotImplemented
 
-    def subscript(self, ex, st, obj, idx, node):
-        return Obj("opaque:slice")
-
-
-def c38(chk, prefix="gensym"):
+def c38(chk, prefix="gensym", concrete=None):
     tree, fn = _src("hy/core/util.hy", "gensym")
     chk.fn("hy/core/util.hy::gensym (as compiled by hy_compile)")
     m = GensymModel()
@@ -275,10 +348,8 @@ def c38(chk, prefix="gensym"):
     st = State()
     st.globals["_gensym_counter"] = z3.Int("counter0")
     st.ghost["held"] = False
-    g = z3.String("g")
-
-    class Slice(ast.NodeTransformer):
-        pass
+    g = z3.String("g")          # the argument, represented by its str() (what str.format uses)
+    whole = True
     try:
         paths = run_fn(ex, st, fn, {"g": g})
     except Unsupported as e:
@@ -286,6 +357,7 @@ def c38(chk, prefix="gensym"):
         paths = None
         why = str(e)
     if paths is None:
+        whole = False
         # the critical section: everything up to the last statement that mentions the lock or the counter
         body = [s_ for s_ in fn.body if not (isinstance(s_, ast.Expr) and isinstance(s_.value, ast.Constant))]
         last = max((i for i, s_ in enumerate(body)
@@ -295,10 +367,12 @@ def c38(chk, prefix="gensym"):
         st.globals["_gensym_counter"] = z3.Int("counter0")
         st.ghost["held"] = False
         st.frame.vars["g"] = g
+        m.ints = []
         paths = ex.run_block(st, crit)
         chk.notes.append("gensym: statements after the critical section are outside pyvc's subset (" + why + "); the monitor "
-                         "discipline is verified on the critical section, the string part by the run-time contract")
+                         "discipline is verified on the critical section, the string part by the run-time contract only")
     k = 0
+    returned = 0
     for p in paths:
         k += 1
         acc = [e for e in p.st.log if e[0] in ("read", "write")]
@@ -318,8 +392,29 @@ def c38(chk, prefix="gensym"):
             else:
                 ex.oblige(f"n == counter at acquire + 1 == counter at release", p.st,
                           z3.And(n_ == p.st.ghost["at_acquire"] + 1, rel[-1][1] == n_))
+            if whole:
+                # postconditions of the whole function (the property's string part), on every returning path
+                v = p.val
+                txt = p.st.fields.get((v.oid, "text")) if isinstance(v, Obj) and v.kind == "Symbol" else None
+                if p.kind != "return" or txt is None or n_ is None:
+                    ex.oblige("gensym returns a hy.models.Symbol", p.st, z3.BoolVal(False))
+                    continue
+                returned += 1
+                ex.oblige("gensym returns a hy.models.Symbol", p.st, z3.BoolVal(True))
+                ex.oblige("the result is already mangled (a fixed point of hy.mangle)", p.st, MANGLE(txt) == txt)
+                ex.oblige("the result starts with the reserved prefix _hy_", p.st, z3.PrefixOf(z3.StringVal("_hy_"), txt))
+                ex.oblige("the result ends with _<n> for the counter value n taken under the lock (so results of different calls differ)",
+                          p.st, z3.SuffixOf(z3.Concat(z3.StringVal("_"), z3.IntToStr(n_)), txt))
+        elif whole:
+            ex.oblige("gensym returns a hy.models.Symbol", p.st, z3.BoolVal(False))
     ex.oblige("vacuity: a path through the critical section exists", st, z3.BoolVal(len(paths) >= 1))
-    discharge(chk, prefix, ex)
+    if whole:
+        ex.oblige("vacuity: a returning path through the whole function exists", st, z3.BoolVal(returned >= 1))
+        chk.assume(*[f"gensym lemma {k_}: {v_}" for k_, v_ in GENSYM_LEMMAS.items()])
+        chk.assume("gensym: the argument is represented by its str(); the counter is non-negative when the lock is acquired "
+                   "(module invariant: starts at 0, only incremented)")
+    chk.extra["gensym_whole_function"] = whole
+    discharge(chk, prefix, ex, extra_models=concrete)
     chk.trust("threading.Lock gives mutual exclusion; _gensym_counter is reached only through gensym (syntactic frame check below)")
     # frame: the counter is referenced nowhere else in hy/
     import glob
@@ -336,6 +431,7 @@ def c38(chk, prefix="gensym"):
     status, info = E.prove([d >= c + 1], c + 1 != d + 1)
     chk.ob(prefix + "/lemma: two serialised critical sections return different numbers (strictly increasing counter)", status == "proved",
            info if status == "proved" else "z3", "proved")
+    return whole
 
 
 # ===============================================================================================================
